@@ -168,8 +168,21 @@ class GMDistribution:
             x = np.atleast_2d(x)
 
         d = np.zeros(len(x))
-        for m, w in zip(means, weights):
-            d += w * ss.multivariate_normal.pdf(x, mean=m, cov=cov)
+        try:
+            for m, w in zip(means, weights):
+                d += w * ss.multivariate_normal.pdf(x, mean=m, cov=cov)
+        except np.linalg.LinAlgError:
+            # scipy tests positive definiteness relative to the largest eigenvalue and refuses a
+            # valid covariance whose variances span many orders of magnitude (parameters of very
+            # different scales). Evaluate in standardised coordinates instead.
+            scale = np.sqrt(np.diag(np.atleast_2d(cov)))
+            if means.ndim != 2 or not (np.all(np.isfinite(scale)) and np.all(scale > 0)):
+                raise
+            corr = np.atleast_2d(cov) / np.outer(scale, scale)
+            d = np.zeros(len(x))
+            for m, w in zip(means, weights):
+                d += w * ss.multivariate_normal.pdf((x - m) / scale, mean=np.zeros(len(scale)),
+                                                    cov=corr) / np.prod(scale)
 
         # Cast to correct ndim
         if ndim == 0 or (ndim == 1 and means.ndim == 2):
